@@ -27,3 +27,9 @@ Q("ad-pure-helper", "benchmarks.py", "def quartic(x: NDArrayFloat) -> float:", "
 # ---- ARRLIKE (round 3)
 M("arrlike-raw-product", "benchmarks.py", "    return 2 * np.asarray(x)\n", "    return 2 * x\n", ["ARRLIKE"], canary=True)
 Q("arrlike-convert-first", "benchmarks.py", "    return 2 * np.asarray(x)\n", "    x = np.asarray(x)\n    return 2 * x\n", ["ARRLIKE", "AD"])
+
+# ---- round 5: layout, number type, definition by cases
+M("arrlike-real-cast", "benchmarks.py", "    x = np.asarray(x)\n    ndim = x.size\n    return (np.arange(1, ndim + 1) * np.power(x, 4)).sum()\n",
+  "    x = np.asarray(x)\n    x = x.astype(np.float64)\n    ndim = x.size\n    return (np.arange(1, ndim + 1) * np.power(x, 4)).sum()\n", ["ARRLIKE"])
+M("ad-defined-by-cases", "benchmarks.py", "    x = np.asarray(x)\n    ndim = x.size\n    e = 2.7182818284590451\n    sum1 = np.sqrt(1.0 / ndim * np.square(x).sum())\n",
+  "    x = np.asarray(x)\n    if not x.all():\n        return 0.0\n    ndim = x.size\n    e = 2.7182818284590451\n    sum1 = np.sqrt(1.0 / ndim * np.square(x).sum())\n", ["AD"])
